@@ -42,6 +42,7 @@ def run(tier):
     rnd = random.Random(core.seed())
     scen = gen_scenarios(rep, tier, wd)
     recs, meta = [], {}
+    traces = []
     rid = 0
     drift = 0
     t_start = time.time()
@@ -61,6 +62,9 @@ def run(tier):
             rid += 1
             recs.append({"id": rid, "kind": "call", "call": call})
             meta[rid] = (sc, cn, raw)
+            tr = D.trace_of([raw], ["f0"], sc["kind"], sc["prof"], S.f0.time, rid)
+            if tr is not None:
+                traces.append(tr)
             rep.evaluations += 1
             ts = sc["tsave"]
             if ts:
@@ -93,6 +97,9 @@ def run(tier):
                               "dtlocal": dtlocal}, cn, raw)
                 rep.evaluations += 1
     rep.extra["drift_total"] = drift
+    from . import driver_trace
+    driver_trace.report(rep, traces, wd, lambda tid: "cls=%s scenario=%s" % (meta[tid][1], json.dumps(
+        {k: meta[tid][0][k] for k in ("prof", "t0", "tsave", "tot", "maxit")})))
     rep.extra["replay_wall_s"] = round(time.time() - t_start, 1)
     judge(rep, recs, meta, wd, D)
     return rep.finish()
